@@ -49,24 +49,30 @@ Theorem C05_frame_roundtrip : forall f r tl, wf_frame f ->
   read_frame {| sdata := enc_frame f ++ r; stail := tl |} = (Ok f, {| sdata := r; stail := tl |}).
 Proof. exact read_frame_roundtrip. Qed.
 
-(* C05_report, partial.  Proved: for every pair of sequences of well-formed frames (any number
-   of channels interleaved, supported and unsupported methods, content, heartbeats, protocol
-   header) the two Dissect calls - client half first, as the suite drives them - decode every
-   frame exactly and apply `step` (main.go's handling of one decoded frame, with the matcher) to
-   the abstract frames in order: items and matcher residue are the fold of `step`; nothing is
-   misdecoded, skipped or decoded twice.
-   Missing for the full statement "items = exact report of the conversation outside the recorded
-   finding classes": a specification-level `report` written independently of `step`, and the
-   proof that the fold of `step` equals it when no finding class is triggered (unique pairing
-   keys, client-initiated requests, contiguous single-frame bodies of 1..512 bytes, no
-   handshake).  That equality is what the oracle of tools/props/C05.py checks on the
-   implementation against tools/fam/amqp.py ideal_report / design_report for every generated
-   conversation; the finding classes are the `excl` of DESIGN.md 5.C05 and are computed there. *)
+(* C05_report.  The full statement on the model is AmqpReport.C05_statement: for every pair of
+   sequences of well-formed frames in normal form (`AmqpSpec.normal`: no recorded finding class
+   is triggered - client-initiated requests with distinct pairing keys, no handshake methods,
+   every publish / deliver followed on its direction by its header and exactly one body frame of
+   1..512 bytes) both Dissect calls end cleanly and the items are exactly `AmqpSpec.spec_report`,
+   the report written from the property.
+   Proved (C05_report_partial): for ALL sequences of well-formed frames, normal form or not - any
+   number of channels interleaved, supported and unsupported methods, content, heartbeats,
+   protocol header - the two Dissect calls, client half first as the suite drives them, decode
+   every frame exactly and apply `step` (main.go's handling of one decoded frame, with the
+   matcher) to the abstract frames in order: nothing is misdecoded, skipped or decoded twice.
+   Proved (C05_statement_reduced): the full statement follows from `step_report_agree`, i.e. what
+   is missing is exactly that the fold of `step` over abstract frames in normal form equals
+   spec_report.  That remaining equation is evaluated by Coq (vm_compute, AmqpEq.spec_check) on
+   every normal-form conversation of every run, and its counterpart on the implementation is the
+   oracle of tools/props/C05.py. *)
 Theorem C05_report_partial : forall cfs sfs ct st_, Forall wf_frame cfs -> Forall wf_frame sfs ->
   dissect_both true {| sdata := enc_frames cfs; stail := ct |} {| sdata := enc_frames sfs; stail := st_ |} =
   (end_outcome ct, end_outcome st_,
    snd (run_frames false sfs (init_dstate, snd (run_frames true cfs (init_dstate, init_mstate))))).
 Proof. exact report_frames. Qed.
+
+Theorem C05_statement_reduced : step_report_agree -> C05_statement.
+Proof. exact statement_from_step. Qed.
 
 (* the hypotheses are satisfiable: a publish with content on channel 1 *)
 Example C05_wf_example :
